@@ -1,0 +1,29 @@
+//go:build verif
+
+// Contracts for the deductive verifier in /verif (gocv); comments only.
+
+package storage
+
+// C18: a storage has at most one owner; the ownership token is handed out only while nobody holds it, and giving it
+// back (by its holder) makes the storage available again.
+//@ func (*memStorage).Lock
+//@   props C18
+//@   safety off
+//@   ensures [C18:one-owner] (old(ms.slock) != nil) ==> (ret1 == ErrLocked && ms.slock == old(ms.slock))
+//@   ensures [C18:granted-when-free] (old(ms.slock) == nil) ==> (ret1 == nil && ms.slock != nil)
+//@ func (*memStorageLock).Unlock
+//@   props C18
+//@   safety off
+//@   ensures [C18:released-by-the-holder] (old(lock.ms.slock) == lock) ==> lock.ms.slock == nil
+//@   ensures [C18:stale-token-releases-nothing] (old(lock.ms.slock) != lock) ==> lock.ms.slock == old(lock.ms.slock)
+//@ func (*fileStorage).Lock
+//@   props C18
+//@   safety off
+//@   ensures [C18:one-owner] (old(fs.open) >= 0 && !old(fs.readOnly) && old(fs.slock) != nil) ==> (ret1 == ErrLocked && fs.slock == old(fs.slock))
+//@   ensures [C18:granted-when-free] (old(fs.open) >= 0 && !old(fs.readOnly) && old(fs.slock) == nil) ==> (ret1 == nil && fs.slock != nil)
+//@   ensures [C18:closed-storage] old(fs.open) < 0 ==> ret1 == ErrClosed
+//@ func (*fileStorageLock).Unlock
+//@   props C18
+//@   safety off
+//@   ensures [C18:released-by-the-holder] (lock.fs != nil && old(lock.fs.slock) == lock) ==> lock.fs.slock == nil
+//@   ensures [C18:stale-token-releases-nothing] (lock.fs != nil && old(lock.fs.slock) != lock) ==> lock.fs.slock == old(lock.fs.slock)
